@@ -300,8 +300,24 @@ def _deletion(fn_name, entity):
         else:
             df = fn(model, l1, **kw)
         res = _frame_del(df)
+        # the .knockout accessor must return exactly the rows asked for (single ids, lists, sets; ids or objects)
+        acc = []
+        keys = sorted(k for k in res if "#dup" not in k)
+        for q in a.get("accessor", []):
+            if q["i"] >= len(keys):
+                continue
+            ids = keys[q["i"]].split("|") if keys[q["i"]] else []
+            if not ids:
+                continue
+            items = [lst.get_by_id(i) for i in ids] if q.get("obj") and all(lst.has_id(i) for i in ids) else list(ids)
+            arg = items[0] if (len(items) == 1 and q.get("bare")) else [set(items)]
+            try:
+                got = df.knockout[arg]
+                acc.append([keys[q["i"]], sorted("|".join(sorted(x)) for x in got["ids"])])
+            except Exception as e:
+                acc.append([keys[q["i"]], "raised " + type(e).__name__])
         if a.get("method", "fba") == "fba":
-            return {"unique": res}
+            return {"unique": res, "accessor": acc}
         return {"unique": {k: v[1] for k, v in res.items()}, "other": res, "ref_fluxes": ref_fluxes}
 
     return run
@@ -440,6 +456,7 @@ def canon_key(op):
     """Identity of a call up to what must not matter: processes, item order, object/id form."""
     a = dict(op.get("args", {}))
     a.pop("as_obj", None)
+    a.pop("accessor", None)
     for k in ITEM_LISTS.get(op["op"], ()):
         if a.get(k) is not None:
             a[k] = sorted(a[k])
@@ -733,6 +750,11 @@ class World:
     def _exact_deletion(self, op, result, only_optimal=False):
         entity, combos = self._combos(op)
         res = result["unique"]
+        for want, got in result.get("accessor") or []:
+            if got != [want]:
+                raise Violation("deletion_exact", {"what": ".knockout accessor does not return exactly the row asked for", "asked": want,
+                                                   "got": got}, culprit=_pub(op))
+            self.stats["probe:knockout_accessor_checked"] += 1
         want_keys = {"|".join(sorted(c)) for c in combos}
         if not only_optimal and set(res) != want_keys:
             raise Violation("deletion_exact", {"what": "rows of the frame != requested unordered combinations (each exactly once)",
@@ -969,6 +991,8 @@ def _gen_call(rng, W, prop):
             if a.get("l1") is None:
                 a["l1"] = subset(lst)
         a["as_obj"] = rng.random() < 0.5
+        if rng.random() < 0.5:
+            a["accessor"] = [{"i": rng.randint(0, 6), "obj": rng.random() < 0.5, "bare": rng.random() < 0.5} for _ in range(2)]
         if prop == "C13" and rng.random() < 0.4:
             a["method"] = rng.choice(["linear moma", "linear room"])
         elif prop in ("C06", "C14") and rng.random() < 0.25:
